@@ -19,7 +19,7 @@
 //   - `guards`: a whole statement, matched by its printed form, is read as `if cond then result`
 //     (used for the `for … range` bankroll loop of `Start`: any edit inside the loop changes the
 //     printed form, the statement is then unknown and the translation fails);
-//   - tag `switch` with constant cases, `fallthrough` and `default`, read as an if-chain;
+//   - tag `switch` with constant cases, `fallthrough` and `default`, and tagless `switch` over conditions, read as an if-chain;
 //   - `loop`/`around`: the body of the one top-level loop of a function is translated as a function of
 //     one iteration; the statements around the loop are pinned by their printed form;
 //   - `x++`, `x--` on tracked variables;
@@ -279,10 +279,13 @@ func (t *tr) block(stmts []ast.Stmt, k string, own, outer scope) string {
 		return t.block(x.List, t.block(rest, k, own, outer), scope{}, in)
 	case *ast.SwitchStmt:
 		// switch tag { case c1, c2: … [fallthrough] … default: … }  read as an if-chain
-		if x.Init != nil || x.Tag == nil {
+		if x.Init != nil {
 			break
 		}
-		tag := t.expr(x.Tag)
+		tag := ""
+		if x.Tag != nil {
+			tag = t.expr(x.Tag)
+		}
 		in := nested()
 		cont := t.block(rest, k, own, outer)
 		clauses := x.Body.List
@@ -306,7 +309,7 @@ func (t *tr) block(stmts []ast.Stmt, k string, own, outer scope) string {
 			cc := c.(*ast.CaseClause)
 			body, ok := bodyOf(i)
 			if !ok {
-				t.fail = append(t.fail, "fallthrough out of the switch: "+pr(x.Tag))
+				t.fail = append(t.fail, "fallthrough out of the switch: "+tag)
 				return "UNTRANSLATED"
 			}
 			b := t.block(body, cont, scope{}, in.inner())
@@ -316,7 +319,11 @@ func (t *tr) block(stmts []ast.Stmt, k string, own, outer scope) string {
 			}
 			var alts []string
 			for _, e := range cc.List {
-				alts = append(alts, "("+tag+" == "+t.expr(e)+")")
+				if x.Tag == nil { // tagless switch: the cases are conditions
+					alts = append(alts, "("+t.expr(e)+")")
+				} else {
+					alts = append(alts, "("+tag+" == "+t.expr(e)+")")
+				}
 			}
 			out += "(if " + strings.Join(alts, " || ") + " then\n " + b + "\n else\n "
 			closing += ")"
